@@ -49,6 +49,7 @@ CB1, DFSTRUCT, BACKSHIFT = "cb1", "dfstruct", "backshiftguard"
 BUF, VSVAL = "buffer", "vsval"     # a freshly obtained buffer (its slots); a `RawVec` / `Vec` value under construction     # kinds whose threaded state is the vector model: `Vec` methods, and methods of its iterator structs
 BD, DRAIN, ITER2 = "bound", "drainstruct", "sliceiter"
 SLICE, CB2 = "slice", "cb2"   # a sub-slice of the vector's buffer (first slot, length); a two-argument predicate (call log as data)
+VIT = "vit"               # an iterator handed to the vector by value (the model's `V.It`): owned by the local that holds it
 XSLICE = "xslice"         # a slice outside the vector's buffer (`&[T]`, `*const [T]`): its slots
 XPTR = "xptr"             # pointer to the first element of such a slice
 EXTW = "extendwith"      # `impl ExtendWith<T>`: the one implementor, `ExtendElement(value)`, is the value it clones
@@ -87,6 +88,7 @@ def lean_ty(t):
     if t == EXTW: return "V.Elem"
     if t == SLICE: return "(Nat × Nat)"
     if t == XSLICE: return "(List (Option V.Elem))"
+    if t == VIT: return "V.It"
     if t == CB2: return "(Nat → V.Elem → V.Elem → Option Bool)"
     if t == BUF: return "(List (Option V.Elem))"
     if t == VSVAL: return "V.VS"
@@ -262,6 +264,7 @@ FUNCS += [
     Fn("append_elements", "vec", "st", file=VEC_RS, group="VecCopy", anchor=VEC_IMPL, lean="vec_append_elements", ptypes={"other": "xslice"}),
     Fn("extend_from_slice_copy_unchecked", "vec", "st", file=VEC_RS, group="VecCopy", lean="vec_extend_from_slice_copy_unchecked", ptypes={"other": "xslice"}),
     Fn("extend_from_slice_copy", "vec", "st", file=VEC_RS, group="VecCopy", lean="vec_extend_from_slice_copy", ptypes={"other": "xslice"}),
+    Fn("extend", "vec", "st", file=VEC_RS, group="VecCopy", anchor="Extend<T> for Vec<'bump, T>", lean="vec_extend", ptypes={"iter": VIT}),
 ]
 DRAIN_FIELDS = [("tail_start", "usize"), ("tail_len", "usize"), ("iter", "slice::Iter<'a,T>")]
 FUNCS += [
@@ -347,7 +350,7 @@ class Env:
         return e
 
     def guards(self):
-        return [x[1] for x in self.owned if isinstance(x, tuple)]
+        return [x[1] for x in self.owned if isinstance(x, tuple) and x[0] != "iter"]
 
     def fresh(self, name):
         name = name.replace("self.", "self_")
@@ -462,6 +465,8 @@ class Tr:
             if isinstance(ln, tuple) and ln[0] == "guardfn":      # a guard whose destructor is a translated function
                 finals = [env.d["self." + f][0] for f, _ in self.fn.self_fields]
                 t = f"(RsM.stateOf (Gen.Fn.df_backshift_drop c pred {' '.join(finals)} {t}))"
+            elif isinstance(ln, tuple) and ln[0] == "iter":      # an iterator held by value: dropping it drops what it still owns
+                t = f"(RsM.it_drop c {env.d[ln[1]][0]} {t})"
             elif isinstance(ln, tuple):      # a `SetLenOnDrop` guard: its destructor stores the length it carries
                 t = f"(RsM.store_len {env.d[ln[1]][0]} {t})"
             else:
@@ -526,7 +531,7 @@ class Tr:
         for ln in list(env.owned):
             if not isinstance(ln, tuple) and re.search(r"(?<![A-Za-z0-9_.'])%s(?![A-Za-z0-9_'])" % re.escape(ln), t):
                 env = env.disown(ln)
-        order = [x for x in reversed(env.owned) if not isinstance(x, tuple)]
+        order = [x for x in reversed(env.owned) if not isinstance(x, tuple) or x[0] == "iter"]
         if env.guards():
             raise Untranslatable("a drop guard is live at the end of the function")
 
@@ -534,6 +539,8 @@ class Tr:
             if j == len(order):
                 return self.RET(t, ty, e)
             e2 = e.disown(order[j])
+            if isinstance(order[j], tuple):
+                return self.bind_call(f"RsM.it_drop_end c {e.d[order[j][1]][0]}", "st", K(lambda t_, ty_, e3: go(j + 1, e3)), e2, UNIT)
             return self.bind_call(f"RsM.drop_local c {order[j]}", "st", K(lambda t_, ty_, e3: go(j + 1, e3)), e2, UNIT)
         return go(0, env)
 
@@ -769,6 +776,10 @@ class Tr:
                 return f"(0, {self.sv}.1.len)", SLICE
             if ty == SLICE and name == "len" and not args:
                 return f"{paren(t)}.2", NAT
+            if ty == VIT and name == "into_iter" and not args:
+                return t, VIT
+            if ty == VIT and name == "size_hint" and not args:
+                return f"({paren(t)}.hintLo, ())", ("tuple", [NAT, UNIT])
             if ty == XSLICE and name == "len" and not args:
                 return f"{paren(t)}.length", NAT
             if ty == XSLICE and name == "as_ptr" and not args:
@@ -1050,6 +1061,8 @@ class Tr:
             raise Untranslatable("`?` / `return` while a drop guard is live")
         if kind == "for":
             return self.FOR(e, env, k)
+        if kind == "foriter":
+            return self.FOR_IT(e, env, k)
         if kind == "while":
             return self.WHILE_K(e, env, k) if self.fn.kind in KEEPK else self.WHILE(e, env, k)
         if kind == "try":
@@ -1528,6 +1541,67 @@ class Tr:
         for m in muts:
             del env2.d[m]
         return self.bind_call(call, "st", k, env2, ty_b)
+
+    def FOR_IT(self, e, env, k):
+        """`for x in iter { body }` over an iterator the frame owns: `loop { match iter.next() { None => break, Some(x) => body } }`.
+        A lambda-lifted function recursive on fuel (what the iterator can still yield + 1) that returns the iterator as the loop
+        leaves it; `next` panicking, or a panic in the body, runs the frame's drop glue there (the iterator as advanced so far
+        included), so the call site does not run it again.  The element is owned by the loop variable."""
+        _, pat, it, body = e
+        if pat[0] != "pid" or it[0] != "path" or len(it[1]) != 1 or it[1][0] not in env.d or env.d[it[1][0]][1] != VIT:
+            raise Untranslatable("`for` over this value")
+        if ("iter", it[1][0]) not in env.owned:
+            raise Untranslatable("`for` over an iterator the frame does not own")
+        itn = it[1][0]
+        muts = sorted((assigned(body) | guard_calls(body)) & set(env.d))
+        if muts:
+            raise Untranslatable("loop body rebinds locals")
+        self.nj += 1
+        name = f"{self.fn.lean}.loop_{self.nj}"
+        cur_it = env.d[itn][0]
+        captured = [(ln, t) for ln, t in env.scope if lean_ty_ok(t) and ln != cur_it]
+        envl = env.copy()
+        envl.scope = [(ln, t) for ln, t in envl.scope if ln != cur_it]
+        envl, fuel = envl.bind("fuel", NAT)
+        envl, fuel1 = envl.bind("fuel", NAT)
+        envl, it0 = envl.bind(itn, VIT)
+        env1, it1 = envl.bind(itn, VIT)
+        env2, x = env1.bind(pat[1], ELEM)
+        env2 = env2.own(x)
+        lead_args = " ".join(self.lead_names)
+        cap_args = " ".join(ln for ln, _ in captured)
+        saved_version = self.version
+        self.no_join += 1
+        self.bump_version()
+        again = K(lambda t, ty, e_: f"(Gen.Fn.{name} {lead_args} {cap_args} {fuel1} {e_.d[itn][0]} {self.sv})")
+        inner_body = self.E(body, env2, K(lambda t, ty, e_: self.DROP_LOCALS_THEN(e_, env1, again)))
+        inner = (f"(match RsM.it_next c {it0} {self.sv} with\n| ({self.sv}, {it1}, none) => {self.panic(env1)}\n"
+                 f"| ({self.sv}, {it1}, some none) => ({self.sv}, Outcome.ok {it1})\n| ({self.sv}, {it1}, some (some {x})) =>\n{inner_body})")
+        self.no_join -= 1
+        self.version = saved_version
+        params = [f"({ln} : {lean_ty(t)})" for ln, t in captured]
+        self.lifted.append(
+            f"def {name} {' '.join(self.lead)} {' '.join(params)} ({fuel} : Nat) ({it0} : V.It) ({self.sv} : {self.sty}) : {self.sty} × Outcome V.It :=\n"
+            + indent(f"(match {fuel} with\n| 0 => {self.bad('loop fuel exhausted')}\n| {fuel1} + 1 =>\n{inner})") + "\n")
+        call = f"Gen.Fn.{name} {lead_args} {cap_args} ({cur_it}.remaining + 1) {cur_it}"
+
+        def kafter(r, ty_, e2):
+            e3, ln = e2.bind(itn, VIT)
+            return f"let {ln} := {r};\n" + k("()", UNIT, e3)
+        return self.bind_call(call, "st", K(kafter), env, VIT, nopanic=True)
+
+    def DROP_LOCALS_THEN(self, e_inner, e_outer, k):
+        """end of a loop body: element locals the body still owns are dropped (newest first), then `k`"""
+        extra = [x for x in reversed(e_inner.owned) if x not in e_outer.owned and not isinstance(x, tuple)]
+
+        def go(j, e):
+            if j == len(extra):
+                e2 = e.restrict_to(e_outer)
+                e2.owned = [x for x in e.owned if x in e_outer.owned]
+                return k("()", UNIT, e2)
+            e2 = e.disown(extra[j])
+            return self.bind_call(f"RsM.drop_local c {extra[j]}", "st", K(lambda t_, ty_, e3: go(j + 1, e3)), e2, UNIT)
+        return go(0, e_inner)
 
     def FOR(self, e, env, k):
         """`for _ in lo..hi { body }`: a lambda-lifted function, structurally recursive on the number of iterations left,
@@ -2173,6 +2247,8 @@ class Tr:
             env, ln = env.bind(n, ty)
             if ty in (ELEM, EXTW) and self.fn.kind in VECK:
                 env = env.own(ln)
+            if ty == VIT and self.fn.kind in VECK:
+                env = env.own(("iter", n))
             params.append(f"({ln} : {lean_ty(ty)})")
             if ty == CB2:
                 cb_params.append(n)
